@@ -138,6 +138,16 @@ theorem hex8_meaning (a b c d e f g h' : Char)
   rw [span_all _ _ h]
   simp [hexBody]
 
+/-- Four hex digits: three doubled channel digits and a doubled alpha digit, `#abcd = #aabbccdd`. -/
+theorem hex4_meaning (a b c d : Char) (h : ∀ x ∈ [a, b, c, d], isHexDigit x = true) :
+    parseHex ['#', a, b, c, d] =
+      .ok [] (fromRgba8 (UInt8.ofNat (hexVal a * 17)) (UInt8.ofNat (hexVal b * 17)) (UInt8.ofNat (hexVal c * 17))
+        (Float.ofNat (hexVal d * 17) / 255.0)) := by
+  unfold parseHex stripHash many1
+  simp only []
+  rw [span_all _ _ h]
+  simp [hexBody]
+
 /-! ### named colours -/
 
 /-- Every row of the CSS table is found under its own (lower-case) name — names are unique. -/
